@@ -17,6 +17,7 @@ fn opcode(m: &str) -> Option<u8> {
         "RETURNDATASIZE" => 0x3d, "RETURNDATACOPY" => 0x3e, "EXTCODEHASH" => 0x3f, "BLOCKHASH" => 0x40,
         "COINBASE" => 0x41, "TIMESTAMP" => 0x42, "NUMBER" => 0x43, "PREVRANDAO" => 0x44,
         "GASLIMIT" => 0x45, "CHAINID" => 0x46, "SELFBALANCE" => 0x47, "BASEFEE" => 0x48,
+        "BLOBHASH" => 0x49, "BLOBBASEFEE" => 0x4a,
         "POP" => 0x50, "MLOAD" => 0x51, "MSTORE" => 0x52, "MSTORE8" => 0x53, "SLOAD" => 0x54,
         "SSTORE" => 0x55, "JUMP" => 0x56, "JUMPI" => 0x57, "PC" => 0x58, "MSIZE" => 0x59, "GAS" => 0x5a,
         "JUMPDEST" => 0x5b, "TLOAD" => 0x5c, "TSTORE" => 0x5d, "MCOPY" => 0x5e, "PUSH0" => 0x5f,
@@ -317,6 +318,24 @@ const BATCHER_SRC: &str = r#"
 /// Returns NUMBER || BLOCKHASH(NUMBER-1): block-dependent, but none of timestamp/randomness/gas/txid.
 pub fn numhash_runtime() -> Vec<u8> {
     assemble("NUMBER PUSH 0 MSTORE PUSH 1 NUMBER SUB BLOCKHASH PUSH 32 MSTORE PUSH 64 PUSH 0 RETURN")
+}
+
+/// Returns every environment word that is not timestamp / randomness / remaining gas / txid:
+/// GASLIMIT, COINBASE, BASEFEE, CHAINID, GASPRICE, ORIGIN, CALLER, CALLVALUE, SELFBALANCE, BLOBBASEFEE,
+/// BALANCE(caller), ADDRESS, CODESIZE, EXTCODESIZE(caller), BLOBHASH(0).
+pub fn envdump_runtime() -> Vec<u8> {
+    assemble(
+        "GASLIMIT PUSH 0 MSTORE COINBASE PUSH 32 MSTORE BASEFEE PUSH 64 MSTORE CHAINID PUSH 96 MSTORE \
+         GASPRICE PUSH 128 MSTORE ORIGIN PUSH 160 MSTORE CALLER PUSH 192 MSTORE CALLVALUE PUSH 224 MSTORE \
+         SELFBALANCE PUSH 256 MSTORE BLOBBASEFEE PUSH 288 MSTORE CALLER BALANCE PUSH 320 MSTORE \
+         ADDRESS PUSH 352 MSTORE CODESIZE PUSH 384 MSTORE CALLER EXTCODESIZE PUSH 416 MSTORE \
+         PUSH 0 BLOBHASH PUSH 448 MSTORE PUSH 480 PUSH 0 RETURN",
+    )
+}
+
+/// Init code whose installed runtime is GASLIMIT || CHAINID || BASEFEE as seen by the deployment.
+pub fn env_stamped_init() -> Vec<u8> {
+    assemble("GASLIMIT PUSH 0 MSTORE CHAINID PUSH 32 MSTORE BASEFEE PUSH 64 MSTORE PUSH 96 PUSH 0 RETURN")
 }
 
 /// Init code whose installed runtime is the 32-byte block number it was deployed in.
